@@ -14,7 +14,7 @@ MCChanType == <<[baudDb |-> 15051500, slotDb |-> 16989700],
 MCChanType2 == <<[baudDb |-> 18061800, slotDb |-> 18750613],
                  [baudDb |-> 15051500, slotDb |-> 16989700],
                  [baudDb |-> 18061800, slotDb |-> 18750613]>>
-MCStages == {"designed", "reloaded"}
+MCStages == {"designed", "reloaded", "yang"}
 MCStageOne == {"designed"}
 \* node: pch -20 dBm, psd -35 dB(mW/GHz) (-19.95 dBm at 32 GBd), psw -37 dB(mW/GHz) (-20.01 dBm in 50 GHz)
 MCNodeV == [k \in PolicyKinds |-> IF k = "pch" THEN -20000000 ELSE IF k = "psd" THEN -35000000 ELSE -37000000]
